@@ -256,3 +256,9 @@ def run(ctx):
     ctx.borrow(_C03, {"C03.R6": ("C01.R12", "perform_write: the pending value of a lane goes out before its synced marker, unconditionally (C03.R6)")})
     from rules import C06 as _C06
     ctx.borrow(_C06, {"C06.R1": ("C01.R11", "every item a handler step modified is collected for writing, also when the handlers it triggers fail (C06.R1)")})
+
+    with ctx.rule("C01.R13", "T2", "a lane event is handed to every remote linked to the lane, whether or not an earlier remote's writer is busy", floor=2) as r:
+        _rt = ctx.crate("swimos_runtime")
+        _he = ctx.saw(_rt.fn(name="handle_event", self_adt="task::WriteTaskState"))
+        uplinks.broadcast_visits_every_target(r, ctx, _rt, _he)
+
